@@ -13,6 +13,7 @@ over refs, (b) evaluated on plain data with the genuine Python operators,
   ('call', fname, args, kwargs)       f.<fname>(*args, **dict(kwargs))
   ('dyn', base_path, key_term)        base[<key>] with a computed key
   ('cmp', name, lhs, rhs)             deferred equality: lhs._eq(rhs) / _neq
+  ('L', value)                        an explicit LiteralExpr node (refs.LiteralExpr(value))
   ('ix', base_term, key)              item of an expression RESULT: (<base>)[key]   (computed owner)
   ('at', base_term, name)             attribute of an expression result: (<base>).name
 """
@@ -141,7 +142,7 @@ def ev(t, roots):
     k = t[0]
     if k == "loc":
         return get_path(roots, t[1])
-    if k == "lit":
+    if k in ("lit", "L"):
         return t[1]
     if k == "bin":
         a = ev(t[2], roots)
@@ -192,6 +193,9 @@ def to_ref(t, rroots):
         return ref_of(rroots, t[1])
     if k == "lit":
         return t[1]
+    if k == "L":
+        import xdeps.refs as _refs
+        return _refs.LiteralExpr(t[1])
     if k == "bin":
         return BIN[t[1]](to_ref(t[2], rroots), to_ref(t[3], rroots))
     if k == "cmp":
@@ -224,6 +228,8 @@ def has_ref(t):
         return True
     if k == "lit":
         return False
+    if k == "L":
+        return True      # an expression node, although it reads nothing
     if k in ("bin", "cmp"):
         return has_ref(t[2]) or has_ref(t[3])
     if k == "un":
@@ -251,6 +257,8 @@ def show(t):
         return path_str(t[1])
     if k == "lit":
         return repr(t[1])
+    if k == "L":
+        return f"LiteralExpr({t[1]!r})"
     if k == "bin":
         return f"({show(t[2])} {BIN_SYM[t[1]]} {show(t[3])})"
     if k == "cmp":
